@@ -121,6 +121,10 @@ func suiteCuckoo(c *Ctx) {
 		}
 		cuckooCase(c, cfg)
 	}
+	// two-digit bucket counts and sizes on both backends (keys and slot numbers that, written next
+	// to each other, can be read in two ways: bucket 1 slot 12 / bucket 11 slot 2)
+	cuckooCase(c, cuckooCfg{n: 12, b: 13, fpl: 3, retries: 50, redis: true})
+	cuckooCase(c, cuckooCfg{n: 12, b: 13, fpl: 3, retries: 50, redis: false})
 	cuckooInvalidFpProbe(c)
 	cuckooHugeBucket(c)
 }
@@ -322,13 +326,13 @@ func cuckooCase(c *Ctx, cfg cuckooCfg) {
 					}
 				})
 				if res.panicked || ierr != nil || nh == nil {
-					c.fail([]string{"C10"}, "cuckoo-import-fails", fmt.Sprintf("%s: Import of the filter's own export failed: %v %v", cfg, res.panicVal, ierr), replayOf())
+					c.fail([]string{"C10", "C13"}, "cuckoo-import-fails", fmt.Sprintf("%s: Import of the filter's own export failed: %v %v", cfg, res.panicVal, ierr), replayOf())
 					return
 				}
 				a, _ := cuckooSnap(h)
 				bb, _ := cuckooSnap(nh)
 				if a.doc.bucketsStr() != bb.doc.bucketsStr() || a.length != bb.length {
-					c.fail([]string{"C10"}, "cuckoo-import-differs", fmt.Sprintf("%s: imported copy differs from the original", cfg), replayOf())
+					c.fail([]string{"C10", "C13", "C02"}, "cuckoo-import-differs", fmt.Sprintf("%s: imported copy differs from the original", cfg), replayOf())
 					return
 				}
 				h = nh
